@@ -66,7 +66,7 @@ Proof.
   set (w' := fun l c => if (l <? KS)%nat then w l c else 0).
   exists r', (fun l ridx => nth l sg 1 * w' l (ravel (remove_nth k (shape X)) ridx)).
   split; [reflexivity|]. split.
-  - intros j l Hj Hl.
+  - apply orthonormal_semi. intros j l Hj Hl.
     transitivity (sumR m (fun i => (nth j sg 1 * nth l sg 1) * (gR U [i; j] * gR U [i; l]))).
     + apply (fsumn_ext Rops). intros i Hi. rewrite !HU' by assumption. cbn [fmul Rops]. ring.
     + rewrite (fsumn_scale_l Rops Rops_ring). rewrite Horth by (unfold r' in *; lia). cbn [fmul Rops f1 f0].
